@@ -2428,8 +2428,9 @@ class BADS:
                 | ~np.isreal(f_target_s)
                 | ~np.isfinite(f_target_s)
             ):
-                f_target_mu = self.optim_state["fval"]
+                f_target_mu = np.array(self.optim_state["fval"], dtype=float)
                 f_target_s = self.optim_state["fsd"]
+                fs2 = np.array(f_target_s, dtype=float) ** 2
 
             # f_target: Set optimization target slightly below the current incumbent
             if self.options["alternative_incumbent"]:
